@@ -160,6 +160,16 @@ def find_param_match(F, fid, enum_path=None):
 
 
 def from_u8_table(F, fid, enum_path, domain=range(256)):
+    """byte -> variant table of a from_u8-like function, computed with the partial evaluator for all 256
+    bytes (independent of match / if-chain / early-return style). Returns (table, rejects_unknown, node)."""
+    from r_pe import pe_from_u8_table
+    table, rejects = pe_from_u8_table(F, fid, enum_path)
+    f = F.fns.get(fid) or {}
+    node = {"sp": f.get("sp")}
+    return table, (len(table) + len(rejects) == 256), node
+
+
+def from_u8_table_by_pattern(F, fid, enum_path, domain=range(256)):
     """byte -> variant table of a `from_u8`-like function.
 
     Accepted idioms: `match byte { C => Ok(V)|V|Some(V), C1|C2 => .., a..=b => .., n|_ => Err/None/return }`.
